@@ -12,16 +12,46 @@ def generate(o):
     hp = o.item("row.HEADER_PREFIX", lambda: row.assign("HEADER_PREFIX"), b"\x10\x00")
     mx = o.item("row.MAXIMUM_RECORD_SIZE", lambda: row.assign("MAXIMUM_RECORD_SIZE"), 16 * 1024 * 1024)
 
-    def to_bytes_calls():
+    def roles():
+        """Which local of `as_bytes` is the payload, its length, the clock — by what is assigned to it, not by name."""
         fn = row.func("as_bytes", "Row")
-        calls = []
+        r = {}
+        for n in ast.walk(fn):
+            if isinstance(n, ast.Assign) and len(n.targets) == 1 and isinstance(n.targets[0], ast.Name) and isinstance(n.value, ast.Call):
+                f = n.value.func
+                name = f.id if isinstance(f, ast.Name) else (f.attr if isinstance(f, ast.Attribute) else None)
+                if name == "packb":
+                    r[n.targets[0].id] = "payload"
+                elif name == "time_ns":
+                    r[n.targets[0].id] = "ts"
+        for n in ast.walk(fn):
+            if isinstance(n, ast.Assign) and len(n.targets) == 1 and isinstance(n.targets[0], ast.Name) and isinstance(n.value, ast.Call) \
+                    and isinstance(n.value.func, ast.Name) and n.value.func.id == "len" and len(n.value.args) == 1 \
+                    and isinstance(n.value.args[0], ast.Name) and r.get(n.value.args[0].id) == "payload":
+                r[n.targets[0].id] = "len"
+        return fn, r
+
+    def role_of(e, r):
+        """Role of an expression: a local by its role, `len(payload)` and `time.time_ns()` written inline."""
+        if isinstance(e, ast.Name):
+            if e.id == "HEADER_PREFIX":
+                return "prefix"
+            return r.get(e.id)
+        if isinstance(e, ast.Call):
+            f = e.func
+            if isinstance(f, ast.Name) and f.id == "len" and len(e.args) == 1 and role_of(e.args[0], r) == "payload":
+                return "len"
+            if isinstance(f, ast.Attribute) and f.attr == "time_ns":
+                return "ts"
+        return None
+
+    def to_bytes_calls():
+        fn, r = roles()
+        d = {}
         for n in ast.walk(fn):
             if isinstance(n, ast.Call) and isinstance(n.func, ast.Attribute) and n.func.attr == "to_bytes":
-                base = n.func.value.id if isinstance(n.func.value, ast.Name) else "?"
-                calls.append((n.lineno, n.col_offset, base, ast.literal_eval(n.args[0]), ast.literal_eval(n.args[1])))
-        calls.sort()
-        d = {c[2]: (c[3], c[4]) for c in calls}
-        return [list(d["record_size"]), list(d["timestamp"])]
+                d[role_of(n.func.value, r)] = [ast.literal_eval(n.args[0]), ast.literal_eval(n.args[1])]
+        return [d["len"], d["ts"]]
 
     tb = o.item("row.to_bytes", to_bytes_calls, [[4, "big"], [8, "big"]])
 
@@ -54,6 +84,97 @@ def generate(o):
         return [g1.group(1), g2.group(1)]
 
     gd = o.item("pyx.guards", guards, ["<", "!="])
+
+    # ---- round 2: more of the control flow of both functions (C01)
+    def fn_text():
+        m = re.search(r"(?ms)^cpdef from_bytes_cython\(.*?(?=^\S)", pyx.text + "\nX")
+        if not m:
+            raise KeyError("from_bytes_cython")
+        return m.group(0)
+
+    def guard_order():
+        t = fn_text()
+        pos = {
+            "size": re.search(r"length\s*(?:<|<=|>|>=)\s*HEADER_SIZE", t),
+            "version": re.search(r"data_ptr\[0\]\s*&", t),
+            "length": re.search(r"record_size\s*(?:!=|==|<|>|<=|>=)\s*length\s*-\s*HEADER_SIZE", t),
+        }
+        if not all(pos.values()):
+            raise KeyError("guard positions")
+        up = re.search(r"unpackb\(", t)
+        if not up or up.start() < max(m.start() for m in pos.values()):
+            raise KeyError("unpackb before a guard")
+        return [k for k, _ in sorted(pos.items(), key=lambda kv: kv[1].start())]
+
+    order = o.item("pyx.guard_order", guard_order, ["size", "version", "length"])
+
+    def payload_start():
+        m = re.search(r"unpackb\(\s*data\[\s*(\w+)\s*:\s*\]\s*\)", fn_text())
+        if not m:
+            raise KeyError("unpackb(data[...:])")
+        return dhs if m.group(1) == "HEADER_SIZE" else int(m.group(1), 0)
+
+    pstart = o.item("pyx.payload_start", payload_start, 14)
+
+    def reserved_dec():
+        t = fn_text()
+        m = re.search(r"isinstance\(item,\s*list\)\s+and\s+len\(item\)\s*==\s*(\d+)\s+and\s+item\[(\d+)\]\s*==\s*\"([^\"]*)\"", t)
+        a = re.search(r"datetime\.fromtimestamp\(\s*item\[(\d+)\]\s*\)", t)
+        if not m or not a:
+            raise KeyError("reserved form test")
+        return [int(m.group(1)), int(m.group(2)), m.group(3), int(a.group(1))]
+
+    rsv = o.item("pyx.reserved_form", reserved_dec, [2, 0, "__datetime__", 1])
+
+    def reserved_enc():
+        fn = row.func("as_bytes", "Row")
+        marks = set()
+        for n in ast.walk(fn):
+            if isinstance(n, ast.Return) and isinstance(n.value, ast.Tuple) and n.value.elts and isinstance(n.value.elts[0], ast.Constant) \
+                    and isinstance(n.value.elts[0].value, str):
+                marks.add((n.value.elts[0].value, len(n.value.elts)))
+        if len(marks) != 1:
+            raise KeyError("serialize markers %r" % (marks,))
+        return list(marks.pop())
+
+    rse = o.item("row.reserved_form", reserved_enc, ["__datetime__", 2])
+
+    def cap_test():
+        fn, r = roles()
+        ops = {ast.Gt: ">", ast.GtE: ">=", ast.Lt: "<", ast.LtE: "<=", ast.Eq: "==", ast.NotEq: "!="}
+        for n in ast.walk(fn):
+            if isinstance(n, ast.If) and isinstance(n.test, ast.Compare) and len(n.test.ops) == 1 \
+                    and isinstance(n.test.comparators[0], ast.Name) and n.test.comparators[0].id == "MAXIMUM_RECORD_SIZE" \
+                    and any(isinstance(b, ast.Raise) for b in n.body):
+                if role_of(n.test.left, r) != "len":
+                    raise KeyError("the cap is compared with something else than len(payload)")
+                return ops[type(n.test.ops[0])]
+        raise KeyError("cap test")
+
+    cap_op = o.item("row.cap_op", cap_test, ">")
+
+    def layout():
+        fn, r = roles()
+        rets = [n for n in fn.body if isinstance(n, ast.Return)]
+        if len(rets) != 1:
+            raise KeyError("return")
+        parts = []
+
+        def flat(e):
+            if isinstance(e, ast.BinOp) and isinstance(e.op, ast.Add):
+                flat(e.left)
+                flat(e.right)
+                return
+            role = role_of(e.func.value, r) if (isinstance(e, ast.Call) and isinstance(e.func, ast.Attribute) and e.func.attr == "to_bytes") \
+                else role_of(e, r)
+            if role not in ("prefix", "len", "ts", "payload"):
+                raise KeyError("part " + ast.unparse(e)[:40])
+            parts.append(role)
+
+        flat(rets[0].value)
+        return parts
+
+    lay = o.item("row.layout", layout, ["prefix", "len", "ts", "payload"])
     big = all(x[1] == "big" for x in tb)
     text = HEADER + "namespace Gen.Row\n"
     text += "def headerSize : Nat := %d\n" % hs
@@ -69,6 +190,22 @@ def generate(o):
     text += "def lengthField : List (Nat × Nat) := %s\n" % lean_list(sh, lambda p: "(%d, %d)" % (p[0], p[1]))
     text += "def guardSizeOp : String := %s\n" % lean_str(gd[0])
     text += "def guardLenOp : String := %s\n" % lean_str(gd[1])
+    text += "/-- order in which `from_bytes_cython` applies its three tests (all before `unpackb`) -/\n"
+    text += "def guardOrder : List String := %s\n" % lean_list(order, lean_str)
+    text += "/-- `unpackb(data[payloadStart:])` -/\n"
+    text += "def payloadStart : Nat := %d\n" % pstart
+    text += "/-- the reserved form on the decoder side: `len(item) == reservedLen and item[reservedIdx] == reservedMarker`, argument `item[reservedArg]` -/\n"
+    text += "def reservedLen : Nat := %d\n" % rsv[0]
+    text += "def reservedIdx : Nat := %d\n" % rsv[1]
+    text += "def reservedMarker : String := %s\n" % lean_str(rsv[2])
+    text += "def reservedArg : Nat := %d\n" % rsv[3]
+    text += "/-- the reserved form the encoder's `serialize` produces: (marker, tuple length) -/\n"
+    text += "def reservedMarkerEnc : String := %s\n" % lean_str(rse[0])
+    text += "def reservedLenEnc : Nat := %d\n" % rse[1]
+    text += "/-- `if record_size <capOp> MAXIMUM_RECORD_SIZE: raise DataError` with `record_size = len(record_bytes)` -/\n"
+    text += "def capOp : String := %s\n" % lean_str(cap_op)
+    text += "/-- the parts `as_bytes` concatenates, in order -/\n"
+    text += "def frameLayout : List String := %s\n" % lean_list(lay, lean_str)
     text += "end Gen.Row\n"
     o.files["Row.lean"] = text
 
